@@ -375,7 +375,7 @@ def run(ctx):
     pid, tier, seed = ctx['pid'], ctx['tier'], ctx['seed']
     res = C.Result()
     ctx = dict(ctx, binary=C.build_harness())
-    rounds = 1 if tier == 'quick' else 3      # 3 rounds of 64 KiB payloads: about 50 min of vm_compute in the JSON scanner; 6 took 100 min
+    rounds = 1 if tier == 'quick' else 2      # each thorough round evaluates the Gallina JSON scanner on payloads up to 64 KiB: about 17 min of vm_compute per round (3 rounds took 50 min, 6 took 100)
     for rnd in range(rounds):
         run_once(ctx, res, seed * 1000 + rnd, 1 if tier == 'quick' else 3, 4096 if tier == 'quick' else 65536, 'r%d' % rnd)
     res.extra['anchor_drift'] = C.anchor_hashes(['message/message.go', 'message/metadata.go', 'components/cqrs/marshaler_json.go', 'components/cqrs/marshaler_protobuf.go',
